@@ -44,6 +44,7 @@ LEVEL = "exploration"
 
 ALPHABET = "<|>.^-_#+0159afFLWAzmcx "
 ALPHA_FAMILY = "#.5fF+L"
+COLOR_FAMILY = "5fF_G^"              # hex digits and near-misses of the hex class (between 'F' and 'a' in ASCII)
 DIGITS = "0123456789"
 HEX = "0123456789abcdefABCDEF"
 STYLES = ("block", "kitty", "iterm2")
@@ -469,7 +470,12 @@ def check_strings(col, L, specs, part, state_every=20000, ws=True, styles=STYLES
                 got = ("StyleError", e)
             except ValueError as e:
                 if fields is None:
-                    continue                 # fast path: non-sentence (base part), documented ValueError
+                    # fast path: non-sentence (base part), documented ValueError("Invalid format specifier ...")
+                    if "Invalid format specifier" not in str(e):
+                        col.violation(_sig(spec, clause="error-message", style=style),
+                                      f"{style}: {spec!r} (no sentence) raised ValueError({str(e)!r}); documented: "
+                                      f"'Invalid format specifier'", dict(kind="spec", style=style, spec=spec))
+                    continue
                 got = ("ValueError", e)
             except world.HarnessError:
                 raise
@@ -845,7 +851,9 @@ W_MENU = ["", "0", "1", "10", "007"]
 V_MENU = ["", ".", ".^", ".5", ".-0", ".^12"]
 A_MENU = ["", "#", "##", "#.5", "#.", "#ffffff", "#FFFFF", "#1.5", "#.5.5"]
 S_MENU = ["", "+", "+L", "+W", "+A", "+z1", "+z-5", "+m1", "+c9", "+Lz0m1c4", "+c4L", "+x",
-          "+z2147483647", "+z2147483648", "+z-2147483647", "+z-2147483648", "+Wm0c0", "+Am1"]
+          "+z2147483647", "+z2147483648", "+z-2147483647", "+z-2147483648", "+Wm0c0", "+Am1",
+          # long digit strings: leading zeros are digits like any other, the range is judged on the value
+          "+z00000000005", "+z-000000000007", "+z99999999999", "+z-999999999999", "+Lz000000000000m1"]
 H_EDIT = ["", "<"]
 W_EDIT = ["", "10"]
 V_EDIT = ["", ".", ".^12"]
@@ -928,6 +936,11 @@ def _shard(items):
             n0 = col.evaluations
             check_strings(col, L, gen_prefix(prefix, maxlen, SHADE_ALPHABET), "shade-style", styles=("shade",))
             col.inc("strings_shade_style", col.evaluations - n0)
+        elif kind == "color":
+            prefix, maxlen = arg
+            n0 = col.evaluations
+            check_strings(col, L, gen_prefix(prefix, maxlen, COLOR_FAMILY), "color-family")
+            col.inc("strings_color_family", (col.evaluations - n0) // 3)
         elif kind == "alpha":
             prefix, maxlen = arg
             check_strings(col, L, gen_prefix(prefix, maxlen, ALPHA_FAMILY), "alpha-family")
@@ -1040,6 +1053,9 @@ def run(ctx):
     for t in itertools.product(ALPHA_FAMILY, repeat=2):
         items.append(("alpha", ("#" + "".join(t), alpha_len)))
     items.append(("list", ("alpha-family-short", ["#"] + ["#" + c for c in ALPHA_FAMILY])))
+    for t in itertools.product(COLOR_FAMILY, repeat=2):            # "#" + 2..7 characters of the colour family
+        items.append(("color", ("#" + "".join(t), 8)))
+    items.append(("list", ("color-family-short", ["#" + c for c in COLOR_FAMILY])))
     product = menu_product([H_MENU, W_MENU, V_MENU, A_MENU, S_MENU])
     for c in chunks(product, 2000):
         items.append(("list", ("menu-product", c)))
@@ -1092,7 +1108,7 @@ def run(ctx):
                                                   "max_length that contain a symbol, plus every menu-product "
                                                   "sentence with one ASCII digit replaced by a symbol"))
     ctx.coverage.update(alphabet=ALPHABET, alphabet_size=len(ALPHABET), max_length_all_strings=maxlen,
-                        alpha_family_alphabet=ALPHA_FAMILY, alpha_family_max_length=alpha_len,
+                        color_family=dict(alphabet=COLOR_FAMILY, max_length=8), alpha_family_alphabet=ALPHA_FAMILY, alpha_family_max_length=alpha_len,
                         menus=dict(h_align=H_MENU, width=W_MENU, vertical=V_MENU, alpha=A_MENU, style=S_MENU),
                         single_edit_bases=len(edit_base),
                         rendered_specs_per_style=len(render_specs), styles=list(STYLES), terminal=list(TERM),
